@@ -134,7 +134,7 @@ def main(chk):
     # machine-derived: scoping histories that the C16 reference model calls invalid for redeclaration / duplicate label
     nder, derbad = derived_scoping(chk)
     # completeness metric (not a verdict): which error( call sites does the catalogue reach?
-    covnote = coverage_metric(chk, entries, dropped) if chk.want('cov') else None
+    covnote = coverage_metric(chk, entries, dropped) if chk.want('cov') and not build.COV else None
     cov = {
         'evaluations': n + nder,
         'distinct_nontrivial': len(entries) - len(dropped),
